@@ -786,6 +786,11 @@ func runC15Child(o *Out, rng *RNG, tier string, replay string) {
 		c15RunnerProbe(o, rng.Fork(), nRunner)
 	}
 
+	// ---------- (ii-m) the caller changes its map object while holding
+	if !hung {
+		c15CallerMapProbe(o)
+	}
+
 	// ---------- (iii) lock-list parsing of pip:run
 	c15Parse(o, rng, nParse)
 }
